@@ -415,6 +415,9 @@ class Program:
                 for d in st.decorator_list:
                     if isinstance(d, ast.Name) and d.id == "property":
                         kind = "getter"
+                    elif (isinstance(d, ast.Name) and d.id == "cached_property") or (isinstance(d, ast.Attribute) and d.attr == "cached_property"):
+                        kind = "getter"
+                        f.cached_property = True
                     elif isinstance(d, ast.Attribute) and d.attr == "setter":
                         kind = "setter"
                 f.property_kind = kind
